@@ -225,10 +225,16 @@ def expectedSortCalls : List (String × String × String × String × String) :=
       (AthenaTrinoGenerator copying TrinoGenerator.TRANSFORMS: known finding / fix C15-athena-trino-transforms-order);
     * `Parser._parse_connect_with_prior` puts "PRIOR" into the class-level `NO_PAREN_FUNCTION_PARSERS` for the duration of one
       sub-parse and pops it again — not on the exception path before the repair (known finding / fix C15-connect-prior-table-restore);
+    * `BigQuery.COERCES_TO[...] |= {…}` extends, in place, sets that the class-body dict `{**TypeAnnotator.COERCES_TO, …}` still shares
+      with TypeAnnotator.COERCES_TO: importing the bigquery module changes type coercion for every dialect without a table of its
+      own (known finding / fix C15-bigquery-coerces-to-shared-sets);
     * `Properties.PROPERTY_TO_NAME = {…}` is assigned once, at module level right after the class statement in the same module
       (import time, before anything can copy it);
     * `_DISPATCH_CACHE` and `cls._COMMENTS` are the fills covered by `dispatch_cache_idempotent` / class construction. -/
 def expectedMutatedClassTables : List (String × String × String × String) := [
+  ("sqlglot/dialects/bigquery.py", "BigQuery", "COERCES_TO[exp.DType.BIGINT]", "aug:BitOr-on-shallow-copy"),
+  ("sqlglot/dialects/bigquery.py", "BigQuery", "COERCES_TO[exp.DType.DECIMAL]", "aug:BitOr-on-shallow-copy"),
+  ("sqlglot/dialects/bigquery.py", "BigQuery", "COERCES_TO[exp.DType.VARCHAR]", "aug:BitOr-on-shallow-copy"),
   ("sqlglot/dialects/dialect.py", "_Dialect.__new__", "gen_cls.TRANSFORMS", "rebind"),
   ("sqlglot/expressions/properties.py", "<module>", "Properties.PROPERTY_TO_NAME", "rebind"),
   ("sqlglot/generator.py", "Generator.__init__", "_DISPATCH_CACHE", "setitem"),
@@ -236,6 +242,53 @@ def expectedMutatedClassTables : List (String × String × String × String) := 
   ("sqlglot/parser.py", "Parser._parse_connect_with_prior", "self.NO_PAREN_FUNCTION_PARSERS", "setitem"),
   ("sqlglot/tokens.py", "_TokenizerBase.__init_subclass__", "cls._COMMENTS", "setitem")
 ]
+
+/-- the same list once the known defect is repaired (BigQuery copying the sets of TypeAnnotator.COERCES_TO before extending them) -/
+def expectedMutatedClassTablesRepaired : List (String × String × String × String) :=
+  expectedMutatedClassTables.filter fun e => !(e.1 == "sqlglot/dialects/bigquery.py" && e.2.2.1.startsWith "COERCES_TO[")
+
+/-! ### MappingSchema.find: a cache whose key leaves out one input of the lookup (`raise_on_missing`) -/
+
+/-- what a lookup answers: the table's columns, `None` (tolerant miss), or a SchemaError (strict miss / ambiguity) -/
+inductive LRes where
+  | found (v : Nat) | missing | raised
+  deriving DecidableEq, Repr
+
+/-- the uncached lookup (`AbstractMappingSchema.find`): a function of the mapping, the key AND the strictness flag -/
+def resolve (m : Nat → Option Nat) (strict : Bool) (k : Nat) : LRes :=
+  match m k with
+  | some v => .found v
+  | none => if strict then .raised else .missing
+
+abbrev FindCache := List (Nat × Option Nat)
+
+def cget (c : FindCache) (k : Nat) : Option (Option Nat) := (c.find? fun p => p.1 == k).map (·.2)
+
+/-- `MappingSchema.find`: the cache key is `k` alone — the strictness flag is NOT part of it.
+    `serveMisses = false`: `v = cache.get(k); if v is None: v = resolve(...); cache[k] = v` (a cached None is never served);
+    `serveMisses = true` : `if k in cache: return cache[k]` (the seeded variant).
+    A strict miss raises before the store, so nothing is cached for it. -/
+def crecompute (m : Nat → Option Nat) (c : FindCache) (k : Nat) (strict : Bool) : LRes × FindCache :=
+  match resolve m strict k with
+  | .found v => (.found v, (k, some v) :: c)
+  | .missing => (.missing, (k, none) :: c)
+  | .raised => (.raised, c)
+
+def cfind (serveMisses : Bool) (m : Nat → Option Nat) (c : FindCache) (k : Nat) (strict : Bool) : LRes × FindCache :=
+  match cget c k with
+  | some (some v) => (.found v, c)
+  | some none => if serveMisses then (.missing, c) else crecompute m c k strict
+  | none => crecompute m c k strict
+
+/-- the cache after a history of lookups on one schema object -/
+def runFinds (serveMisses : Bool) (m : Nat → Option Nat) : FindCache → List (Nat × Bool) → FindCache
+  | c, [] => c
+  | c, (k, strict) :: rest => runFinds serveMisses m (cfind serveMisses m c k strict).2 rest
+
+/-- the audited shape of `MappingSchema.find`: the cache key is `(table, ensure_data_types)` — `raise_on_missing` is not part of
+    it —, the cache is read with `.get`, a cached `None` is NOT served (`if schema is None:` recomputes), and the result of the
+    uncached lookup is stored (`cfind false`) -/
+def expectedSchemaFindShape : List String := ["0:cache_key = (table, ensure_data_types)", "0:schema = self._find_cache.get(cache_key)", "0:if schema is None", "1:schema = super().find(table, raise_on_missing=raise_on_missing)", "1:if ensure_data_types and isinstance(schema, dict)", "2:schema = {col: self._to_data_type(dtype) if isinstance(dtype, str) else dtype for col, dtype in schema.items()", "1:self._find_cache[cache_key] = schema", "0:return schema"]
 
 /-! ### methods that overwrite a configuration field for the duration of a sub-call (`_try_parse` and `error_level`) -/
 
